@@ -47,7 +47,7 @@ func (Engine) Budget(tier, prop string) (int, int) {
 	if tier == "thorough" {
 		return 5000, 1200
 	}
-	return 320, 150
+	return 600, 150
 }
 
 // reExecutions is how often a plan that showed a mismatch is executed again on
